@@ -286,6 +286,19 @@ Definition transfer (src : repo) (to_send : list (N * commit)) (tbs commons : li
   | Some s => transfer_loop (S (sender_measure src s)) src max s dst
   end.
 
+(* the packfiles a sender produces when nobody stops it (used for transit-damage cases) *)
+Fixpoint sender_packs (fuel : nat) (src : repo) (max : N) (s : sender) : option (list (list obj)) :=
+  match fuel with
+  | O => None
+  | S fuel' =>
+    match write_objects src max s with
+    | WOk s' pack done =>
+      if done then Some [pack]
+      else match sender_packs fuel' src max s' with Some l => Some (pack :: l) | None => None end
+    | _ => None
+    end
+  end.
+
 (** The object stream of a sender, independent of any size limit (specification-side
     definition used by the theorems and by the hostile-stream cases): drain the queue,
     refilling it exactly where WriteObjects does. *)
@@ -340,6 +353,13 @@ End Transfer.
       tamper kinds on a table: 0 first recorded block-index sum replaced, 1 one more column, 2 pk = [7],
       4 pk = [number of columns] (first out-of-range value), other: undecodable; on a commit: 0 unknown
       extra parent, other: undecodable; on a block: invalid bytes
+    tag 2 (transit damage): params = (tosend tbs commons max dstpre cutpack j where)
+      the honest transfer, but packfile number cutpack is truncated: where = 9: at the boundary before
+      object j (a legitimately shorter packfile: its first j objects); where = 0..3: strictly inside
+      object j (0 inside its type/length header, 1 right after the header, 2 mid-body, 3 one byte
+      before its end): the packfile reader must fail there, i.e. the receiver sees the first j
+      objects and then something undecodable.  After a boundary cut the remaining packfiles follow
+      (the sender has moved on); after a rejection the transfer stops.
     observation = (status recvdone packs final)
       status 0 ok, 1 receiver rejected, 2 sender error, 3 out of fuel
       recvdone = every commit of tosend was stored by this receiver
@@ -532,6 +552,17 @@ Fixpoint recv_packs (d : repo) (ps : list (list obj)) (seen : list (list obj)) :
                  end
   end.
 
+(* truncation of one packfile, at the level of objects *)
+Definition cut_pack (j : nat) (inside : bool) (pack : list obj) : list obj :=
+  if inside then match nth_error pack j with Some _ => firstn j pack ++ [OBad] | None => pack end
+  else firstn j pack.
+Fixpoint cut_at (p : nat) (j : nat) (inside : bool) (packs : list (list obj)) : list (list obj) :=
+  match packs, p with
+  | [], _ => []
+  | pk :: rest, O => cut_pack j inside pk :: rest
+  | pk :: rest, S p' => pk :: cut_at p' j inside rest
+  end.
+
 Definition run_C07 (c : tree) : tree :=
   let w := d_nth 1 c in
   let p := d_nth 2 c in
@@ -549,7 +580,21 @@ Definition run_C07 (c : tree) : tree :=
                            (d_list (fun t => (d_N (d_nth 0 t), d_N (d_nth 1 t))) (d_nth 6 pre))
                            (d_list d_N (d_nth 7 pre))) in
   let out st ps d := Node [Leaf st; t_bool (if st =? 0 then recv_done ts_idx ps d else false); t_packs ps; t_final d] in
-  if d_N (d_nth 0 c) =? 0 then
+  if d_N (d_nth 0 c) =? 2 then
+    let max := d_N (d_nth 3 p) in
+    let dst := mkdst (d_nth 4 p) in
+    match new_sender src to_send tbs commons with
+    | None => out 2 [] dst
+    | Some s =>
+      match sender_packs (obj_size wts wcs bs) (S (sender_measure src s)) src max s with
+      | None => out 2 [] dst
+      | Some packs =>
+        let packs' := cut_at (d_nat (d_nth 5 p)) (d_nat (d_nth 6 p)) (negb (d_N (d_nth 7 p) =? 9)) packs in
+        let '(st, d, seen) := recv_packs dst packs' [] in
+        out st seen d
+      end
+    end
+  else if d_N (d_nth 0 c) =? 0 then
     let max := d_N (d_nth 3 p) in
     let dst := mkdst (d_nth 4 p) in
     match transfer c07_shape (obj_size wts wcs bs) src to_send tbs commons max dst with
